@@ -66,8 +66,9 @@ extern "C" void c19_real_roundtrip()
   union { unsigned u; float f; } x; x.u = u;
   terminal t(x.f);
   node_handle h = t.getHandle();
-  bool zero = (u & 0x7fffffffu) == 0;
-  vp_assert((h == 0) == zero, "real handle 0 iff value is +-0");
+  // zero after the documented rounding (fraction LSB dropped): +-0 and the smallest denormals
+  bool zero = (u & 0x7ffffffeu) == 0;
+  vp_assert((h == 0) == zero, "real handle 0 iff the value is +-0 after rounding (zero has a unique handle)");
   vp_assert(h <= 0, "real terminal handles are never positive");
   terminal d(terminal_type::REAL, h);
   union { unsigned u; float f; } y; y.f = float(d.getReal());
@@ -77,6 +78,7 @@ extern "C" void c19_real_roundtrip()
   } else {
     vp_cover(2);
     vp_assert(y.u == (u & 0xfffffffeu), "real decode(encode(f)) == f with the fraction LSB cleared");
+    vp_assert(d.getReal() != 0.0, "a non-zero handle never decodes to zero");
     if ((u & 0x7f800000u) == 0x7f800000u) vp_cover(3);   // infinities survive
     if ((u & 0x7f800000u) == 0) vp_cover(4);             // denormals
     if (u & 0x80000000u) vp_cover(5);
@@ -93,7 +95,7 @@ extern "C" void c19_real_injective()
   vp_assume(!is_nan_bits(u) && !is_nan_bits(w));
   union { unsigned u; float f; } x, y; x.u = u; y.u = w;
   node_handle hu = terminal(x.f).getHandle(), hw = terminal(y.f).getHandle();
-  bool zu = (u & 0x7fffffffu) == 0, zw = (w & 0x7fffffffu) == 0;
+  bool zu = (u & 0x7ffffffeu) == 0, zw = (w & 0x7ffffffeu) == 0;
   bool same_after_rounding = (zu && zw) || (!zu && !zw && (u & 0xfffffffeu) == (w & 0xfffffffeu));
   vp_assert((hu == hw) == same_after_rounding, "real handles equal iff values equal after the documented rounding");
   if (hu == hw && u != w) vp_cover(1);
